@@ -337,14 +337,14 @@ func (r *Run) runBatch(vhost, vplugin, name string, cases []spec.Case, retry boo
 			if err != nil {
 				death = &Death{ExitErr: err.Error()}
 			}
-		case <-time.After(timeout):
+		case <-healthyAfter(2 * timeout): // (twice the budget: the children's own deadlines stretch on a starved machine)
 			// ask for a goroutine dump, then kill the whole group
 			syscall.Kill(cmd.Process.Pid, syscall.SIGQUIT)
 			select {
 			case <-done:
 			case <-time.After(10 * time.Second):
 			}
-			death = &Death{ExitErr: fmt.Sprintf("watchdog: child exceeded %v", timeout)}
+			death = &Death{ExitErr: fmt.Sprintf("watchdog: child exceeded %v", 2*timeout)}
 		}
 		syscall.Kill(-cmd.Process.Pid, syscall.SIGKILL)
 	}
@@ -710,3 +710,29 @@ func deathResult(d *Death, keyPrefix string) CaseResult {
 }
 
 func jsonUnmarshal(b []byte, v any) error { return json.Unmarshal(b, v) }
+
+// healthyAfter is time.After counted in time during which this machine let us run: it proceeds in ticks of one
+// second, and a tick that took more than three seconds (overload, a stopped process group) does not count. The
+// channel fires after d of such time, or after 6*d whatever the ticks say. A watchdog must not mistake a
+// starved machine for a hung child.
+func healthyAfter(d time.Duration) <-chan struct{} {
+	ch := make(chan struct{})
+	go func() {
+		t0 := time.Now()
+		last := t0
+		var healthy time.Duration
+		for {
+			time.Sleep(time.Second)
+			now := time.Now()
+			if dt := now.Sub(last); dt <= 3*time.Second {
+				healthy += dt
+			}
+			last = now
+			if healthy >= d || now.Sub(t0) >= 6*d {
+				close(ch)
+				return
+			}
+		}
+	}()
+	return ch
+}
